@@ -202,6 +202,7 @@ def run(ctx):
     from . import system_common as sysc
     sessions, sverdict = sysc.run_sessions(ctx, 150 if ctx.quick else 3000, ctx.seed + 7)
     sysc.judge(ctx, "C07", sessions, sverdict, {"readnotes"}, "reading a chart's notes inside a session")
+    sysc.mc_for(ctx, "C07")          # MC_System: bounded model of whole sessions, every transition replayed on the library
     ctx.notes["sessions_with_a_readnotes_event"] = sum(1 for s_ in sessions if any(e["op"] == "readnotes" for e in s_["events"]))
     ctx.exhaustive = True
     ctx.rule = ("S2C: every grid of the bounded MC_NoteData configurations x 3 layouts; C2S: generated well-formed texts "
